@@ -13,6 +13,7 @@ type c04Run struct {
 	hs         []byte
 	loginField []byte
 	pwField    []byte
+	acctPw     []byte
 	err        error
 	outbox     []Transaction
 }
@@ -36,7 +37,7 @@ func (r *c04Run) wantedLogin() string {
 }
 
 func (r *c04Run) credentialsOK() bool {
-	return r.acct.exists && r.wantedLogin() == r.acct.account.Login && "H:"+string(r.pwField) == r.acct.account.Password
+	return r.acct.exists && r.wantedLogin() == r.acct.account.Login && string(r.pwField) == string(r.acctPw)
 }
 
 func (r *c04Run) sentToOthers() int {
